@@ -1597,6 +1597,7 @@ static void InitCode_7000(void) {
     FirstLiteral = NULL;
     ForwardCount = 0;
     SetFlag(&DSPAvail, DSPAvailName, False);
+    SetFlag(&CompLiterals, CompLiteralsName, False);
 }
 
 /*!------------------------------------------------------------------------
